@@ -320,6 +320,19 @@ def rule_unchecked_inventory(ctx, R):
             out |= o
         return out
 
+    # which reviewed owners are on a handle path: a parameter is a handle, a TrimmedIndex (decoded from one / resolver
+    # payload), a generic key, or the receiver is a Borrow/View (which carry a resolved index)
+    key_path = {}
+    for path, fn in g.fns.items():
+        o = fam(path)
+        if o not in owners:
+            continue
+        ins = (fn.sig() or {}).get("inputs")
+        if ins is None:
+            par = fn.d.get("parent")
+            ins = ((g.fns[par].sig() or {}).get("inputs") if par in g.fns else None)
+        kp = ins is None or any(("entity::Entity" in t or "index::TrimmedIndex" in t or "SlotIndex" in t or t in ("K", "E") or "storage::Borrow" in t or "view::" in t) for t in ins)
+        key_path[o] = key_path.get(o, False) or kp
     got = unchecked_sites(ctx)
     n_ok = 0
     used = set()
@@ -352,6 +365,12 @@ def rule_unchecked_inventory(ctx, R):
             ok = cls in allowed.get(o, {})
             if ok:
                 n_ok += 1
+            if not ok and not key_path.get(o, True):
+                # a reviewed function that never sees a handle (clone, grow, drop, iter, the allocator primitives ...) gains an
+                # unchecked operation of a new class: not a matter of handles being memory-safe; the rules of that function's
+                # role (C02/C04/C06/C12/C13 ...) judge what it does. Recorded, not reported under C03.
+                R.note("unchecked operation `%s` (class %s) is new in %s, which takes no handle or index derived from one: left to the rules of that function's role" % (op, cls, o))
+                continue
             R.check(ok, "C03-R2", "%s|%s" % (o, cls) if ok else "UNREVIEWED-UNSAFE|%s|%s" % (o, cls), "reviewed: %s" % allowed.get(o, {}).get(cls, ""),
                     "%s performs `%s` (class %s)%s; the reviewed table lists for %s only %s. An unchecked operation of a new kind in this function needs review (no rule discharges it)." % (
                         path, op, cls, "" if fam(path) == o else ", attributed to its caller " + o, o, sorted(allowed.get(o, {}))), where_of(fn), fn=fn.key)
